@@ -70,6 +70,9 @@ theorem rebuildAP_setBefore {e : Expr} (he : e.before = []) {bf : List Trivia} (
   | selOr e ats g ab d dg db b a =>
     simp only [Expr.before] at he; subst he
     simp [Expr.setBefore, Expr.rebuildAP, addTriviaP, fmtP_nil]
+  | lam n c g k bd b a =>
+    simp only [Expr.before] at he; subst he
+    simp [Expr.setBefore, Expr.rebuildAP, addTriviaP, fmtP_nil]
   | asrt c bd x y b a =>
     simp only [Expr.before] at he; subst he
     have hsp : ∀ (bf' a' : List Trivia) (core : List FP), addTriviaP bf' a' core i inl = fmtP bf' i ++ addTriviaP [] a' core i inl := by
@@ -139,6 +142,9 @@ theorem rebuildAP_addAfter_emptyLine {e : Expr} (he : e.effAfter false = []) (hn
   | selOr e ats g ab d dg db b a =>
     simp only [Expr.effAfter, Bool.false_eq_true, if_false] at he; subst he
     simp [Expr.addAfter, Expr.setAfter, Expr.after, Expr.rebuildAP, addTriviaP, trailP_emptyLine, trailP_nil]
+  | lam n c g k bd b a =>
+    simp only [Expr.effAfter, Bool.false_eq_true, if_false] at he; subst he
+    simp [Expr.addAfter, Expr.setAfter, Expr.after, Expr.rebuildAP, addTriviaP, trailP_emptyLine, trailP_nil]
   | asrt c bd x y b a => cases hna
 
 def spacesIf (inl : Bool) (i : Nat) : Text := if inl then [] else spaces i
@@ -165,6 +171,7 @@ theorem cf_parse_notAsrt {c : Cst} {e : Expr} (hcf : c.cf = true) (hp : c.parse 
   | kw w c1 g1 h c2 g2 c3 g3 b => simp [Cst.cf] at hcf
   | sel e c1 g1 gd ats => simp [Cst.cf] at hcf
   | selOr e c1 g1 gd ats c2 g2 g3 d => simp [Cst.cf] at hcf
+  | lam n c1 g1 c2 g2 b => simp [Cst.cf] at hcf
 
 theorem addAfter_nil (e : Expr) : e.addAfter [] = e := by
   cases e <;> simp [Expr.addAfter, Expr.setAfter, Expr.after]
@@ -357,6 +364,10 @@ theorem flatten_solid : ∀ (c : Cst), c.wf = true → solidT c.flatten
     simp only [Cst.wf, Bool.and_eq_true] at h
     simp only [Cst.flatten]
     exact solidT_append_left' _ (flatten_solid d h.2)
+  | .lam n c1 g1 c2 g2 b, h => by
+    simp only [Cst.wf, Bool.and_eq_true] at h
+    simp only [Cst.flatten]
+    exact solidT_append_left' _ (flatten_solid b h.2)
 
 /-- leaf texts and the normalised containers are non-empty and do not end in a line break -/
 theorem norm_flatten_solid : ∀ (c : Cst) (i : Nat), c.wf = true → solidT (c.norm i).flatten
@@ -389,6 +400,7 @@ theorem norm_flatten_solid : ∀ (c : Cst) (i : Nat), c.wf = true → solidT (c.
   | .kw w c1 g1 hd c2 g2 c3 g3 b, i, h => by simp only [Cst.norm]; exact flatten_solid _ h
   | .sel e c1 g1 gd attrs, i, h => by simp only [Cst.norm]; exact flatten_solid _ h
   | .selOr e c1 g1 gd attrs c2 g2 g3 d, i, h => by simp only [Cst.norm]; exact flatten_solid _ h
+  | .lam n c1 g1 c2 g2 b, i, h => by simp only [Cst.norm]; exact flatten_solid _ h
 
 /-- what the tree normaliser writes between `=` and the value, and the value -/
 def valueNorm (g2 : Text) (v : Cst) (j : Nat) : Text :=
